@@ -77,8 +77,8 @@ func Layouts(kind string) int {
 type Cell struct {
 	Kind    string
 	Preload bool
-	Limit   int
-	Passes  int
+	Limit   uint64 // any uint64: the provider's bounds are uint
+	Passes  uint64
 	Tags    []string // one per entry ("" = the entry has no tag); entry i has identity i
 	Chosen  []string // nil = no chosencases
 	Cap     int      // cancel the context when this many ammo have been acquired (0 = never)
@@ -89,6 +89,10 @@ type Cell struct {
 	FH      []HdrAt // headers declared by the source, in order
 	CH      []Hdr   // the `headers:` option, in order
 	Tick    time.Duration
+	// round 3
+	CloseFail bool // closing the ammo file fails (file sources only)
+	Pad       int  // every entry's URI carries a query of this many bytes (invisible to the provider's logic: file size only)
+	Big       map[int]int // entry i is Big[i] bytes big: uripost / http/json: its body; raw: its whole request
 }
 
 type Hdr struct{ Key, Val string }
@@ -108,16 +112,22 @@ type Obs struct {
 	Run       string // nil|canceled|limit|passes|noammo|other:<..>|noreturn
 	End       string // closed (the consumer saw ok=false) | blocked | spinning
 	Panic     string // the consumer goroutine panicked (in Acquire / Release)
+	Closed    int    // number of Close calls on the ammo file when the run was over (-1: no file — inline uris, constructor failed)
 }
 
 // ---------------------------------------------------------------- the filesystem of the plugins
 
 type cellIO struct {
-	ops    atomic.Int64
-	killed atomic.Bool
+	ops       atomic.Int64
+	killed    atomic.Bool
+	closes    atomic.Int64
+	closeFail bool
 }
 
 var errKilled = errors.New("verif: ammo file killed by watchdog")
+
+// errCloseFault is what Close of the ammo file returns in a cell with CloseFail.
+var errCloseFault = errors.New("verif: closing the ammo file failed")
 
 type countFs struct {
 	afero.Fs
@@ -168,6 +178,16 @@ func (f *countFile) Seek(off int64, whence int) (int64, error) {
 	return f.File.Seek(off, whence)
 }
 
+// Close: counted; fails in a cell with CloseFail (the file is closed all the same).
+func (f *countFile) Close() error {
+	f.io.closes.Add(1)
+	err := f.File.Close()
+	if f.io.closeFail {
+		return errCloseFault
+	}
+	return err
+}
+
 var (
 	mem        = afero.NewMemMapFs()
 	FS         = &countFs{Fs: mem}
@@ -178,6 +198,33 @@ var (
 // ---------------------------------------------------------------- ammo files
 
 func entryPath(i int) string { return "/e" + strconv.Itoa(i) }
+
+const fill = "0123456789abcdefghijklmnopqrstuvwxyz"
+
+func filler(n int) string {
+	if n <= 0 {
+		return ""
+	}
+	return strings.Repeat(fill, n/len(fill)+1)[:n]
+}
+
+// entryURI: the URI of entry i as the source spells it: its path, plus (Pad) a query of Pad bytes.  The identity of a
+// delivered ammo is read off the PATH of its request, so the query is invisible to the observation.
+func entryURI(c Cell, i int) string {
+	if c.Pad > 0 {
+		return entryPath(i) + "?p=" + filler(c.Pad)
+	}
+	return entryPath(i)
+}
+
+// bigBody: the body of the big entry: `big-<i>:` and filler, exactly size bytes
+func bigBody(i, size int) string {
+	p := fmt.Sprintf("big-%d:", i)
+	if size <= len(p) {
+		return p[:size]
+	}
+	return p + filler(size-len(p))
+}
 
 func identOfPath(p string) int {
 	if strings.HasPrefix(p, "/e") {
@@ -205,7 +252,7 @@ type jsonEntry struct {
 }
 
 func jsonOf(c Cell, i int, tag string) jsonEntry {
-	e := jsonEntry{Host: JSONHost, Method: "GET", URI: entryPath(i)}
+	e := jsonEntry{Host: JSONHost, Method: "GET", URI: entryURI(c, i)}
 	if tag != "" || i%2 == 1 { // an untagged entry: `"tag":""` or no tag member at all
 		t := tag
 		e.Tag = &t
@@ -218,7 +265,7 @@ func jsonOf(c Cell, i int, tag string) jsonEntry {
 			e.Headers[h.Key] = h.Val
 		}
 	}
-	e.Body = BodyOf(c.Kind, i)
+	e.Body = BodyOf(c, i)
 	return e
 }
 
@@ -226,8 +273,11 @@ func jsonOf(c Cell, i int, tag string) jsonEntry {
 const JSONHost = "h.example"
 
 // BodyOf is the request body of entry i ("" = none), MethodOf its method.
-func BodyOf(kind string, i int) string {
-	switch kind {
+func BodyOf(c Cell, i int) string {
+	if size := c.Big[i]; size > 0 && c.Kind != KRaw && c.Kind != KURI {
+		return bigBody(i, size)
+	}
+	switch c.Kind {
 	case KURIPost:
 		if i%2 == 0 {
 			return fmt.Sprintf("body-%d", i)
@@ -274,7 +324,7 @@ func URILines(c Cell) []string {
 	}
 	for i, t := range c.Tags {
 		ls = append(ls, hdrLinesAt(c, i)...)
-		l := withTag(entryPath(i), t)
+		l := withTag(entryURI(c, i), t)
 		switch c.Layout {
 		case 1:
 			ls = append(ls, l)
@@ -312,8 +362,8 @@ func FileFor(c Cell) (string, string) {
 			for _, l := range hdrLinesAt(c, i) {
 				b.WriteString(l + "\n")
 			}
-			body := BodyOf(KURIPost, i)
-			fmt.Fprintf(&b, "%s\n%s", withTag(fmt.Sprintf("%d %s", len(body), entryPath(i)), t), body)
+			body := BodyOf(c, i)
+			fmt.Fprintf(&b, "%s\n%s", withTag(fmt.Sprintf("%d %s", len(body), entryURI(c, i)), t), body)
 			if body != "" || c.Layout == 1 || c.Layout == 3 {
 				b.WriteString("\n")
 			}
@@ -331,13 +381,23 @@ func FileFor(c Cell) (string, string) {
 			b.WriteString("\n")
 		}
 		for i, t := range c.Tags {
-			req := fmt.Sprintf("GET %s HTTP/1.1\r\nHost: %s\r\n", entryPath(i), JSONHost)
-			for _, h := range c.FH {
-				if h.Pos == i {
-					req += h.Key + ": " + h.Val + "\r\n"
+			mk := func(uri string) string {
+				req := fmt.Sprintf("GET %s HTTP/1.1\r\nHost: %s\r\n", uri, JSONHost)
+				for _, h := range c.FH {
+					if h.Pos == i {
+						req += h.Key + ": " + h.Val + "\r\n"
+					}
+				}
+				return req + "\r\n"
+			}
+			req := mk(entryURI(c, i))
+			if size := c.Big[i]; size > 0 {
+				// the whole request is exactly `size` bytes (the size the decoder reads with readSized); the filler
+				// starts with the entry's number, so that two big requests differ from their first bytes on
+				if short := mk(entryPath(i) + "?p=" + strconv.Itoa(i) + "-"); len(short) <= size {
+					req = mk(entryPath(i) + "?p=" + strconv.Itoa(i) + "-" + filler(size-len(short)))
 				}
 			}
-			req += "\r\n"
 			eol := "\n"
 			if c.Layout == 2 {
 				eol = "\r\n"
@@ -551,7 +611,8 @@ type identity struct {
 	bad      string // method / body not the one of the entry
 }
 
-func identify(kind string, a core.Ammo) identity {
+func identify(c Cell, a core.Ammo) identity {
+	kind := c.Kind
 	v, ok := a.(httpGunAmmo)
 	if !ok {
 		return identity{id: -2, tag: fmt.Sprintf("%T", a)}
@@ -569,13 +630,52 @@ func identify(kind string, a core.Ammo) identity {
 	}
 	if req.Method != MethodOf(kind) {
 		r.bad = fmt.Sprintf("e%d:method_%s", r.id, req.Method)
-	} else if r.id >= 0 && body != BodyOf(kind, r.id) {
-		r.bad = fmt.Sprintf("e%d:body_%q", r.id, body)
+	} else if r.id >= 0 && body != BodyOf(c, r.id) {
+		show := body
+		if len(show) > 24 {
+			show = fmt.Sprintf("%s…(%d_bytes)", show[:24], len(body))
+		}
+		r.bad = fmt.Sprintf("e%d:body_%q", r.id, show)
 	}
+	gunTouch(req)
 	return r
 }
 
+// gunTouch does to a delivered request what its users do (components/guns/http base.go: scheme, target host, Host when
+// empty; a middleware / the http client: Set and Add on the header map; the body has been read by identify).  Every
+// Acquire must hand out a request of its own: if any of this showed up in a LATER delivery of the same entry (a preloaded
+// ammo is delivered once per pass) the Host / header text of that delivery would differ from the entry's.
+func gunTouch(req *http.Request) {
+	req.URL.Scheme = "https"
+	req.URL.Host = "target.example:443"
+	if req.Host == "" {
+		req.Host = "target.example"
+	}
+	req.Header.Set("User-Agent", "verif-gun")
+	req.Header.Add("X-Gun", "1")
+	for k := range req.Header {
+		if k != "X-Gun" && k != "User-Agent" {
+			req.Header.Add(k, "gun") // append to the values the ammo declared
+			break
+		}
+	}
+}
+
+// classifyErr: what errors.Is finds in the error.  Round 3: the error of closing the ammo file (a cell with CloseFail)
+// is `closeerr`; found together with one of the provider's own classes: `<class>+closeerr`.
 func classifyErr(err error) string {
+	if err != nil && errors.Is(err, errCloseFault) {
+		switch own := classifyOwn(err); {
+		case strings.HasPrefix(own, "other"):
+			return "closeerr"
+		default:
+			return own + "+closeerr"
+		}
+	}
+	return classifyOwn(err)
+}
+
+func classifyOwn(err error) string {
 	switch {
 	case err == nil:
 		return "nil"
@@ -589,6 +689,9 @@ func classifyErr(err error) string {
 		return "noammo"
 	case errors.Is(err, errKilled):
 		return "killed"
+	case strings.Contains(err.Error(), "Multiple errors faced"):
+		// Run's own error and the error of Close made into one error in which errors.Is finds neither
+		return "other"
 	}
 	s := strings.Map(func(r rune) rune {
 		if r == ' ' || r == '\t' || r == '\n' || r == '=' {
@@ -616,7 +719,8 @@ func Run(c Cell) Obs {
 
 func runOnce(c Cell) Obs {
 	var obs Obs
-	cio := &cellIO{}
+	obs.Closed = -1
+	cio := &cellIO{closeFail: c.CloseFail}
 	suffix, content := FileFor(c)
 	path := ""
 	if !c.Uris {
@@ -685,7 +789,7 @@ func runOnce(c Cell) Obs {
 			}
 			k++
 			if c.Cap == 0 || k <= c.Cap {
-				it := identify(c.Kind, a)
+				it := identify(c, a)
 				mu.Lock()
 				obs.Seq = append(obs.Seq, it.id)
 				obs.SeqTags = append(obs.SeqTags, it.tag)
@@ -776,8 +880,21 @@ func runOnce(c Cell) Obs {
 	}
 	mu.Lock()
 	defer mu.Unlock()
+	if !c.Uris {
+		obs.Closed = int(cio.closes.Load())
+	}
 	obs.Seq = append([]int(nil), obs.Seq...)
 	obs.SeqTags = append([]string(nil), obs.SeqTags...)
 	obs.SeqHdr = append([]string(nil), obs.SeqHdr...)
 	return obs
+}
+
+// Prelude runs, in this process, a small provider of the same format and mode with ANOTHER configuration (other tags,
+// other chosencases, other `headers` option, two passes, so that the decoder wraps) to its end and forgets it.  The
+// driver does this before every cell side: a provider must not depend on what an earlier provider of the same process
+// left behind (package-level caches, pools, once-initialised tables); pandora runs several pools in one process.
+func Prelude(kind string, preload bool) {
+	defer func() { _ = recover() }()
+	_ = runOnce(Cell{Kind: kind, Preload: preload, Passes: 2, Tags: []string{"a", "zz", "b", ""}, Chosen: []string{"zz", "b"},
+		CH: []Hdr{{Key: "X-Prelude", Val: "p"}}, FH: []HdrAt{{Pos: 1, Key: "X-A", Val: "prelude"}}})
 }
